@@ -70,13 +70,13 @@ type viewSig struct {
 }
 
 type gen struct {
-	r        *common.Rng
-	env      []bind
-	views    []viewSig
-	fresh    int
-	noString bool // do not emit str(): the hostile stream would take it outside the model
+	r         *common.Rng
+	env       []bind
+	views     []viewSig
+	fresh     int
+	noString  bool // do not emit str(): the hostile stream would take it outside the model
 	letShadow bool // a nested let may take the name of a binding in scope (known finding family)
-	feat     map[string]int
+	feat      map[string]int
 }
 
 var intPool = []int64{0, 1, 2, 3, 5, 7, -1, -4, 10, 9223372036854775807, -9223372036854775808, 4294967296}
